@@ -82,7 +82,7 @@ Fixpoint ins_loop (fuel : nat) (order : nat) (key : K) (f : option V -> V) (n : 
   | Node cs =>
     index <- search_le key (map fst cs) ;;
     '(sep, child) <- get_nth index cs ;;
-    sep' <- (if index =? 0 then sm <- smallest child ;; Ok (if ltb key sm then key else sep) else Ok sep) ;;
+    sep' <- Ok (if index =? 0 then (if ltb key sep then key else sep) else sep) ;;
     match maybe_split order child with
     | None =>
       '(child', arg) <- ins_loop fuel' order key f child ;;
